@@ -5,6 +5,7 @@
 #include <pubkey.h>
 #include <primitives/transaction.h>
 #include "replay_util.h"
+#include "../witprog_native.h"
 bool CastToBool(const std::vector<unsigned char>& vch);
 struct xBV { unsigned char* data; size_t size, cap; };
 extern "C" { extern int g_thrown; void xc_CScriptNum_serialize(xBV*, int64_t); int64_t xc_CScriptNum_from_vch(const xBV*, bool, size_t); int xc_CScriptNum_getint(int64_t); bool xc_CastToBool(const xBV*); bool xc_CheckMinimalPush(const xBV*, int); bool xc_IsOpSuccess(int); }
@@ -14,8 +15,7 @@ static std::string hx(const std::vector<unsigned char>& v) { static const char* 
 static std::vector<unsigned char> ref_ser(int64_t v) { std::vector<unsigned char> r; if (v == 0) return r; bool neg = v < 0; unsigned __int128 a = neg ? (unsigned __int128)(-(__int128)v) : (unsigned __int128)v; while (a) { r.push_back((unsigned char)(a & 0xff)); a >>= 8; } if (r.back() & 0x80) r.push_back(neg ? 0x80 : 0); else if (neg) r.back() |= 0x80; return r; }
 static bool ref_dec(const std::vector<unsigned char>& v, __int128& out) { __int128 m = 0; for (size_t i = 0; i < v.size(); i++) m |= (__int128)(i + 1 == v.size() ? (v[i] & 0x7f) : v[i]) << (8 * i); out = (!v.empty() && (v.back() & 0x80)) ? -m : m; return true; }
 // ExecuteWitnessScript (static in interpreter.cpp) is reached through the real VerifyScript with a P2TR script-path spend of a one-leaf tree.
-static const unsigned char GX[32] = {0x79,0xBE,0x66,0x7E,0xF9,0xDC,0xBB,0xAC,0x55,0xA0,0x62,0x95,0xCE,0x87,0x0B,0x07,0x02,0x9B,0xFC,0xDB,0x2D,0xCE,0x28,0xD9,0x59,0xF2,0x81,0x5B,0x16,0xF8,0x17,0x98};
-static bool ref_opsuccess(int so) { return so == 80 || so == 98 || (so >= 126 && so <= 129) || (so >= 131 && so <= 134) || (so >= 137 && so <= 138) || (so >= 141 && so <= 142) || (so >= 149 && so <= 153) || (so >= 187 && so <= 254); }
+using wpn::ref_opsuccess;
 // BIP342 pre-scan by an independent decoder: 0 = no OP_SUCCESSx and everything decodes, 1 = OP_SUCCESSx met first, 2 = undecodable instruction met first
 static int ref_prescan(const std::vector<unsigned char>& sc) { size_t p = 0; while (p < sc.size()) { unsigned op = sc[p++]; size_t len = 0; if (op <= 75) len = op; else if (op == 76) { if (sc.size() - p < 1) return 2; len = sc[p]; p += 1; } else if (op == 77) { if (sc.size() - p < 2) return 2; len = sc[p] | (sc[p + 1] << 8); p += 2; } else if (op == 78) { if (sc.size() - p < 4) return 2; len = sc[p] | (sc[p + 1] << 8) | (sc[p + 2] << 16) | ((size_t)sc[p + 3] << 24); p += 4; }
     if (op <= 78) { if (sc.size() - p < len) return 2; p += len; continue; } if (ref_opsuccess((int)op)) return 1; } return 0; }
@@ -26,9 +26,7 @@ static void test_tapscript(rv::Rng& r)
     static const size_t NS[] = {0, 1, 2, 3, 999, 1000, 1001, 1002}; static const size_t ES[] = {0, 1, 2, 519, 520, 521, 522, 600};
     size_t ns = NS[r.below(r.below(4) ? 4 : 8)]; std::vector<std::vector<unsigned char>> st(ns); bool big = false; for (auto& e : st) { if (r.below(ns > 10 ? 700 : 3) == 0) e.assign(ES[r.below(8)], 1); else e.assign(r.below(2), 1); if (e.size() > 520) big = true; }
     bool discourage = r.below(2);
-    CScript leaf(sc.begin(), sc.end()); uint256 lh = ComputeTapleafHash(0xc0, leaf); XOnlyPubKey ik{std::span<const unsigned char>(GX, 32)}; auto tw = ik.CreateTapTweak(&lh); if (!tw) return;
-    CScript spk; spk << OP_1 << std::vector<unsigned char>(tw->first.begin(), tw->first.end());
-    CScriptWitness wit; wit.stack = st; wit.stack.push_back(sc); std::vector<unsigned char> ctrl{(unsigned char)(0xc0 | (tw->second ? 1 : 0))}; ctrl.insert(ctrl.end(), GX, GX + 32); wit.stack.push_back(ctrl);
+    wpn::Spend sp; if (!wpn::p2tr_script_path(sc, st, sp)) return; const CScript& spk = sp.spk; CScriptWitness& wit = sp.wit;
     script_verify_flags fl = SCRIPT_VERIFY_P2SH | SCRIPT_VERIFY_WITNESS | SCRIPT_VERIFY_TAPROOT; if (discourage) fl |= SCRIPT_VERIFY_DISCOURAGE_OP_SUCCESS;
     ScriptError err = SCRIPT_ERR_UNKNOWN_ERROR; BaseSignatureChecker chk; bool ok = VerifyScript(CScript(), spk, &wit, fl, chk, &err); rv::g_stats.inputs++;
     int ps = ref_prescan(sc); bool decided = true; bool wok = false; ScriptError werr = SCRIPT_ERR_OK;
